@@ -431,3 +431,53 @@ def string_leaves(t):
                 out += string_leaves(x)
             return out
     return [t]
+
+
+def text_parts(t):
+    """ordered parts of a string-building expression, wrappers that do not change a str removed:
+    'a' + x + 'b'  ==  f'a{x}b'  ==  'a{}b'.format(x)  ->  [C('a'), x, C('b')] (adjacent constants merged)"""
+    import string as _string
+
+    def go(t):
+        if isinstance(t, tuple) and t:
+            if t[0] == "binop" and t[1] == "+":
+                return go(t[2]) + go(t[3])
+            if t[0] == "fstr":
+                out = []
+                for p in t[1]:
+                    out += go(p)
+                return out
+            if is_call(t, ("builtin:format", "builtin:str")) and len(t[2]) == 1 and not t[3]:
+                return go(t[2][0])
+            if is_call(t, "method:format") and t[2] and is_const(t[2][0]) and isinstance(t[2][0][2], str):
+                args, kw = t[2][1:], dict(t[3])
+                out, auto = [], 0
+                try:
+                    for lit, field, spec, conv in _string.Formatter().parse(t[2][0][2]):
+                        if lit:
+                            out.append(C(lit))
+                        if field is None:
+                            continue
+                        if spec or conv or "." in field or "[" in field:
+                            return [t]
+                        if field == "":
+                            out += go(args[auto])
+                            auto += 1
+                        elif field.isdigit():
+                            out += go(args[int(field)])
+                        else:
+                            out += go(kw[field])
+                    return out
+                except (ValueError, IndexError, KeyError):
+                    return [t]
+        return [t]
+
+    merged = []
+    for p in go(t):
+        if is_const(p) and isinstance(p[2], str) and merged and is_const(merged[-1]) and isinstance(merged[-1][2], str):
+            merged[-1] = C(merged[-1][2] + p[2])
+        elif is_const(p) and p[2] == "":
+            continue
+        else:
+            merged.append(p)
+    return merged
